@@ -6,6 +6,7 @@ import os
 from collections import Counter
 
 import vlib
+from pipes import ext1
 from pipes.vector import concat
 
 FAMILIES = ("align", "ident", "pip", "sptr", "uninit", "mono")
@@ -72,30 +73,36 @@ def model(tier, rep):
             for c in gen:
                 f.write(json.dumps(c) + "\n")
         nev = sum(len(c["reqs"]) for c in gen) if fam == "mono" else len(gen)
-        cases[fam] = (p, len(gen), nev)
+        cases[fam] = (gen, len(gen), nev)
         rep.sample({"module": name, "case": gen[len(gen) // 2]})
     rep.cov["exhaustive"] = True
     return cases
 
 
 def _side(impl, exe, cases, tier):
-    tasks, outs = [], []
-    for fam, (p, n, nev) in cases.items():
+    from concurrent.futures import ThreadPoolExecutor
+
+    def one(fam):
+        gen = cases[fam][0]
         tp = os.path.join(vlib.workdir("traces"), "mem_%s_%s_%s.ndjson" % (impl, fam, tier))
-        tasks.append(([exe, "run", p], tp))
-        outs.append(tp)
-    res = vlib.run_parallel(tasks, par=6)
-    unsupported = sorted({l for _, err in res for l in err.splitlines() if l.startswith("UNSUPPORTED")})
-    summ = [l for _, err in res for l in err.splitlines() if l.startswith("SUMMARY")]
+        # every case is a one-line script: a death is attributed to the case in flight
+        return tp, ext1.replay(lambda sp: [exe, "run", sp], [[c] for c in gen], tp, "mem_%s_%s_%s" % (impl, fam, tier), chunk=20000, par=1)
+    with ThreadPoolExecutor(max_workers=6) as ex:
+        res = list(ex.map(one, list(cases)))
+    outs = [tp for tp, _ in res]
+    errs = [l for _, r in res for l in r["stderr"]]
+    unsupported = sorted({l for l in errs if l.startswith("UNSUPPORTED")})
+    summ = [l for l in errs if l.startswith("SUMMARY")]
     skipped = sum(int(l.split("unsupported=")[1].split()[0]) for l in summ)
     leaks = [l for l in summ if not l.endswith("live_delta=0")]
-    got = sum(sum(1 for _ in open(tp, "rb")) for tp in outs)
+    ntraps = sum(len(r["traps"]) for _, r in res)
+    got = sum(r["lines"] - r["markers"] for _, r in res)
     expect = sum(nev for _, _, nev in cases.values())
-    if got + skipped != expect:                          # vacuity guard: every case produced its event(s)
+    if not ntraps and got + skipped != expect:           # vacuity guard: every case produced its event(s)
         raise vlib.ModelFailure("mem driver (%s): %d events + %d not drivable for %d expected" % (impl, got, skipped, expect))
     merged = concat([o for o in outs if os.path.getsize(o) > 0], os.path.join(vlib.workdir("traces"), "mem_%s_merged_%s" % (impl, tier)), 4)
     tv = vlib.tv_parallel("MemTrace.tla", "MemTrace.cfg", merged, "mem_tv_%s_%s" % (impl, tier), par=4, heap="2g")
-    return tv, unsupported, leaks, skipped
+    return tv, unsupported, leaks, skipped, ntraps
 
 
 def pipeline(tier, rep, calibrate=None):
@@ -111,8 +118,8 @@ def pipeline(tier, rep, calibrate=None):
     with ThreadPoolExecutor(max_workers=2) as ex:
         fe = ex.submit(_side, "etl", bins[0], cases, tier)
         fs = ex.submit(_side, "std", bins[1], cases, tier) if calibrate else None
-        tv, unsup, leaks, skipped = fe.result()
-        ctv, cunsup, cleaks, _ = fs.result() if fs else (None, [], [], 0)
+        tv, unsup, leaks, skipped, ntraps = fe.result()
+        ctv, cunsup, cleaks, _, _ = fs.result() if fs else (None, [], [], 0, 0)
     if calibrate:
         if ctv["deviations"]:
             d = ctv["deviations"][0]
@@ -123,7 +130,7 @@ def pipeline(tier, rep, calibrate=None):
         rep.cov["modules"]["Mem"] = {"calibration_events_std": ctv["events"]}
     rep.add_tv("Mem", tv, sum(n for _, n, _ in cases.values()))
     rep.cov["modules"]["Mem"].update({"not_drivable": unsup + ["%s: does not compile" % PROBES[n][1] for n in sorted(PROBES) if not have[n]],
-                                      "cases_not_drivable": skipped, "probes": {PROBES[n][1]: have[n] for n in PROBES}})
+                                      "cases_not_drivable": skipped, "crashes_contained": ntraps, "probes": {PROBES[n][1]: have[n] for n in PROBES}})
     if leaks:
         rep.notes.append({"live_count_imbalance": leaks})
     return tv
